@@ -58,7 +58,7 @@ def claims_bond(ctx, W, st, e, n):
         (cred <= nofee, TXT['b1'], 'bond:b1'),
         ((nofee - cred) * E <= nofee * W.fee, TXT['b2'], 'bond:b2'),
         (peg_claim(W, e, rb), TXT['c'], 'bond:c')], W.mv)
-    if n <= 6:
+    if True:
         ctx.witness('bond with fee charged', st, [rb < W.threshold, cred < nofee], W.mv)
         ctx.witness('bond without fee', st, [rb >= W.threshold], W.mv)
 
@@ -88,7 +88,7 @@ def claims_unbond(ctx, W, st, e, n):
         (rec <= amt, TXT['b1'], 'unbond:b1'),
         ((amt - rec) * E <= amt * W.fee, TXT['b2'], 'unbond:b2'),
         (peg_claim(W, e, rb), TXT['c'], 'unbond:c')], W.mv)
-    if n <= 6:
+    if True:
         ctx.witness('unbond with fee charged', st, [rb < W.threshold, rec < amt], W.mv)
         ctx.witness('unbond without fee', st, [rb >= W.threshold], W.mv)
 
@@ -106,7 +106,7 @@ def claims_convert_stsei(ctx, W, st, e, n):
         (cred <= nofee, TXT['b1'], 'convert_stsei:b1'),
         ((nofee - cred) * E <= nofee * W.fee, TXT['b2'], 'convert_stsei:b2'),
         (peg_claim(W, e, rb), TXT['c'], 'convert_stsei:c')], W.mv)
-    if n <= 6:
+    if True:
         ctx.witness('convert stSei->bSei with fee charged', st, [rb < W.threshold, cred < nofee], W.mv)
         ctx.witness('convert stSei->bSei without fee', st, [rb >= W.threshold], W.mv)
 
@@ -128,7 +128,7 @@ def claims_convert_bsei(ctx, W, st, e, n):
         (moved >= least_value, TXT['b2'], 'convert_bsei:b2'),
         (cred == priced, 'the moved value is credited at the stSei rate (floor)', 'convert_bsei:price'),
         (peg_claim(W, e, rb), TXT['c'], 'convert_bsei:c')], W.mv)
-    if n <= 6:
+    if True:
         ctx.witness('convert bSei->stSei with fee charged', st, [rb < W.threshold, moved < nofee_value], W.mv)
         ctx.witness('convert bSei->stSei without fee', st, [rb >= W.threshold], W.mv)
 
